@@ -229,7 +229,7 @@ func init() {
 		ruleRoundGuard(prog, rep)
 		ruleFilterRoot(prog, rep, func(fn string) bool { return !filterRootMutators[fn] })
 		ruleTwinClauses(prog, rep, 20, func(fd *ast.FuncDecl) bool { return twinScope(fd) == "C11" })
-		ruleNormalizeTwins(prog, rep) // gen data and simple data reach the operators in the same kinds
+		ruleNormalizeTwins(prog, rep)                                                              // gen data and simple data reach the operators in the same kinds
 		rulePushPair(prog, rep, func(fd *ast.FuncDecl) bool { return twinScope(fd) != "C13" }, 10) // C11 is stated against Get, so Get's own copies count here too
 	}
 	rules["C13"] = func(prog *Program, rep *Report) {
